@@ -17,19 +17,19 @@ const T_OPEN: u64 = 10;
 const T_TXN: u64 = 20;
 const T_REOPEN: u64 = 30;
 
-/// run-length summary of the storage points a transaction passes: "set_db_ts_max*1 write_idl*27 ..."
-fn rle(names: &[&'static str]) -> String {
-    let mut out: Vec<String> = Vec::new();
-    let mut i = 0;
-    while i < names.len() {
-        let mut j = i;
-        while j < names.len() && names[j] == names[i] {
-            j += 1;
+/// summary of the storage points a transaction passes, in order of first occurrence:
+/// "set_db_ts_max*1 write_db_ruv*1 write_idl*27 ..." (the flush order inside the name tables
+/// follows hash-map iteration and is not stable, the counts are)
+pub fn rle(names: &[&'static str]) -> String {
+    let mut order: Vec<&'static str> = Vec::new();
+    let mut cnt: std::collections::BTreeMap<&'static str, usize> = Default::default();
+    for n in names {
+        if !cnt.contains_key(n) {
+            order.push(n);
         }
-        out.push(format!("{}*{}", names[i], j - i));
-        i = j;
+        *cnt.entry(n).or_insert(0) += 1;
     }
-    out.join(" ")
+    order.iter().map(|n| format!("{}*{}", n, cnt[n])).collect::<Vec<_>>().join(" ")
 }
 
 fn disk_part(v: &J) -> J {
